@@ -103,6 +103,11 @@ func genLines(t *rapid.T, f gen.Filter) []lineT {
 		if name == "" {
 			name = "q"
 		}
+		// one name in six arrives with a leading dot (legal; validation looks at the name without it, every filter at
+		// every place must still see the name as it was sent and as it is forwarded)
+		if rapid.IntRange(0, 5).Draw(t, "leadingdot") == 0 {
+			name = "." + name
+		}
 		// value / timestamp chosen from the literals filters are built of
 		// (1, 12, 5, ...): the verdict must not depend on them.
 		out[i] = lineT{name, gen.ValueToken(t, "val"), fmt.Sprintf("%d", nowUnix+rapid.SampledFrom([]int{0, 1, 2, 5, 9}).Draw(t, "tsoff"))}
